@@ -202,7 +202,12 @@ func Main(world string, run RunFunc) {
 				rep.Known[res.Key]++
 				continue
 			}
-			rp := shrinkAndSave(world, *prop, *tier, s, c.Rec, res, run, *replayDir, deadline.Add(60*time.Second))
+			// a new violation deserves a well minimised trace; a known finding only needs a replayable one
+			shrinkUntil := time.Now().Add(40 * time.Second)
+			if knownF {
+				shrinkUntil = time.Now().Add(4 * time.Second)
+			}
+			rp := shrinkAndSave(world, *prop, *tier, s, c.Rec, res, run, *replayDir, shrinkUntil)
 			if rp == "" {
 				rep.Infra = append(rep.Infra, fmt.Sprintf("seed=%d: violation %s did not reproduce from its recorded choices (nondeterminism)", s, res.Viol.Oracle))
 				continue
